@@ -85,6 +85,12 @@ GATED_PARAMS = {'commit': [('confirmed', ':confirmed-commit'), ('confirm-timeout
                 'get': [('with-defaults', ':with-defaults')], 'get_config': [('with-defaults', ':with-defaults')]}
 
 
+GATED_VALUES = {'edit_config': [('test-option', 'test-only', ':validate:1.1'), ('error-option', 'rollback-on-error', ':rollback-on-error')]}
+ENUMS = {'default-operation': ['merge', 'replace', 'none'], 'test-option': ['test-then-set', 'set', 'test-only'],
+         'error-option': ['stop-on-error', 'continue-on-error', 'rollback-on-error'],
+         'with-defaults': ['report-all', 'report-all-tagged', 'trim', 'explicit']}
+
+
 def row_violations(row):
     """-> [(key-suffix, what)]: the predicates of Spec/Ops.lean evaluated on one probed row."""
     out = []
@@ -102,6 +108,10 @@ def row_violations(row):
             if n != 1 or not no_tag or raw != 1:
                 out.append(('caller-string', '%s: caller string %r occurs %d times in text/attribute/tag positions (raw %d)%s' % (
                     tag, name, n, raw, '' if no_tag else ', in a tag')))
+    if sent and row['profile'] == 'default' and row['op'] in ('edit_config', 'get', 'get_config'):
+        for pname, val in row.get('enumLeaves', []):
+            if pname in ENUMS and val not in ENUMS[pname]:
+                out.append(('enumeration', '%s: <%s> carries %r, which is not in its enumeration' % (tag, pname, val)))
     if row['outsider'] and (sent or row['nsent'] != 0):
         out.append(('enumeration', '%s: argument outside its documented set was not rejected locally (%s, %d sent)' % (tag, row['outcome'], row['nsent'])))
     if sent and row['capsMode'] == 'all':
@@ -110,6 +120,9 @@ def row_violations(row):
         for pname, cap in GATED_PARAMS.get(row['op'], []):
             if pname in row['params'] and cap not in row['asserted']:
                 out.append(('gated-element', '%s: <%s> is on the wire but %s was not asserted' % (tag, pname, cap)))
+        for pname, val, cap in GATED_VALUES.get(row['op'], []):
+            if [pname, val] in [list(x) for x in row.get('enumLeaves', [])] and cap not in row['asserted']:
+                out.append(('gated-element', '%s: <%s>%s is on the wire but %s was not asserted' % (tag, pname, val, cap)))
         miss = [c for c in required(row) if c not in row['probedMinus']]
         if miss:
             out.append(('gating-probe', '%s: documented dependency %s is never asserted' % (tag, miss)))
